@@ -140,6 +140,15 @@ def pool():
     out.append(("blank-hidden-keepchain-ws", pdb(blank), "pdb", ["--ff=CHARMM", "--keep-chain", "--whitespace"], {}))
     mixed = dict(chains=[_ch("A", ["ARG", "GLY", "TYR"])], na=[dict(id="N", dna=False, seq="GAU", p5=True, newnames=True, start=1)], waters=[])
     out.append(("mixed-keepchain", pdb(mixed), "pdb", ["--ff=AMBER", "--keep-chain"], {}))
+    # record-level oddities that the reader reports and survives - and a file in which the same record type
+    # matters (whatever is remembered about a record type must not outlive the run)
+    pep_lines = pdb(pep).splitlines()
+    out.append(("odd-model-line", "\n".join(["MODEL 1", "HET    SO4  A 101           SULFATE ION"] + pep_lines[:-1] + ["ENDMDL", "END"]) + "\n",
+                "pdb", ["--ff=AMBER"], {}))
+    body = [ln for ln in pep_lines if ln.startswith(("ATOM", "HETATM", "TER"))]
+    shifted = [ln[:30] + "%8.3f" % (float(ln[30:38]) + 0.7) + ln[38:] if ln.startswith(("ATOM", "HETATM")) else ln for ln in body]
+    out.append(("multi-model", "\n".join(["MODEL        1"] + body + ["ENDMDL", "MODEL        2"] + shifted + ["ENDMDL", "END"]) + "\n",
+                "pdb", ["--ff=AMBER"], {}))
     # failing runs
     out.append(("fail-garbage", "garbage\nnot a structure 1 2 3\n", "pdb", ["--ff=AMBER"], {}))
     out.append(("fail-nonintegral", pdb(dict(chains=[_ch("A", ["ALA", "SER", "GLY"])], waters=[])), "pdb", ["--ff=AMBER", "--assign-only"], {}))
